@@ -96,6 +96,15 @@ box('three_takers', ['TAKE(id0)', 'TAKE_RELEASED(id0)', 'TAKE(id0)'], 'vf_check(
 box('stale_never_matches', ['TAKE(stale)', 'TAKE(id0)'], 'vf_check(won[0]==0, 3); vf_check(won[1]==1 && val[1]==42, 1)')
 box('stale_vs_recycle', ['TAKE(stale)', 'TAKE(id0);EMPLACE_NEW(43);TAKE(idnew)', 'TAKE(stale)'], 'vf_check(won[0]==0 && won[2]==0, 3)')
 
+# ----------------------------------------------------------------------------------------------- C04: concurrent vector
+def vec(name, ts, final, extra=(), **kw):
+    S('vec_' + name, 'vector/vec.cpp', {'assert': 'C04'}, defs=['VF_T%d=%s' % (i, t) for i, t in enumerate(ts)] + ['VF_FINAL=' + final] + list(extra), **kw)
+vec('same_index', ['ENSURE(0,0)', 'ENSURE(0,0)'], 'vf_check(addr[0][0]==addr[1][0], 1)', extra=['VF_DESTROY=1'])
+vec('overlap_grow', ['ENSURE(0,0);ENSURE(1,1)', 'ENSURE(1,1);ENSURE(0,0)'], 'vf_check(addr[0][0]==addr[1][0] && addr[0][1]==addr[1][1] && addr[0][0]!=addr[0][1], 1)', extra=['VF_DESTROY=1'], tiers=('thorough',))
+vec('stable_under_growth', ['ENSURE(1,1)', 'SNAP_READ(0,0);ENSURE(0,1)'], 'vf_check((addr[1][0]==nullptr || addr[1][0]==addr0) && addr[1][1]==addr0, 1)', extra=['VF_INIT=addr0 = &v->ensure(0)', 'VF_DESTROY=1'])
+vec('gc_cooling', ['WATCH_GROW(1)', 'GC()'], '(void)0', extra=['VF_INIT=addr0 = &v->ensure(0)'], opts={'clock': 'sec'})
+vec('bs2_same_block', ['ENSURE(0,0);ENSURE(3,1)', 'ENSURE(1,0);ENSURE(2,1)'], 'vf_check(addr[0][0]+1==addr[1][0] && addr[1][1]+1==addr[0][1], 1)', extra=['VF_BS=2', 'VF_DESTROY=1'], tiers=('thorough',))
+
 # ----------------------------------------------------------------------------------------------- manifest texts
 LEVEL_TEXT = {
  'C01': 'Real ConcurrentBoundedQueue<two-word payload, VS> IR; client programs of 2-4 threads mixing push/pop/try_/push_n/pop_n/callback variants on capacities 1-2; oracle = exactly-once multiset, per-thread FIFO, fully published payload, try_ success when sequenced after enough completed operations.',
